@@ -328,7 +328,7 @@ func replay(c *lib.Ctx) {
 		Kind string `json:"kind"`
 	}
 	if err := json.Unmarshal(c.Replay, &probe); err != nil {
-		inconclusive(c, "replay: witness is not JSON: " + err.Error())
+		inconclusive(c, "replay: witness is not JSON: "+err.Error())
 		return
 	}
 	switch probe.Kind {
@@ -341,7 +341,7 @@ func replay(c *lib.Ctx) {
 		json.Unmarshal(c.Replay, &sc)
 		runSvcChild(c, sc)
 	default:
-		inconclusive(c, "replay: unknown witness kind " + probe.Kind)
+		inconclusive(c, "replay: unknown witness kind "+probe.Kind)
 	}
 }
 
@@ -425,7 +425,7 @@ func runAlone(c *lib.Ctx, h History, freshEach bool) {
 		report(c, f, wf)
 	}
 	if broken != "" {
-		inconclusive(c, "history " + h.Key() + ": " + broken)
+		inconclusive(c, "history "+h.Key()+": "+broken)
 	}
 }
 
@@ -448,7 +448,7 @@ func runBatch(c *lib.Ctx, hs []History) {
 		if s == nil {
 			var err error
 			if s, err = newSession(c, h.OneTime, false); err != nil {
-				inconclusive(c, "rig: " + err.Error())
+				inconclusive(c, "rig: "+err.Error())
 				s = nil
 				continue
 			}
@@ -509,7 +509,7 @@ func runBatch(c *lib.Ctx, hs []History) {
 			}
 		}
 		if s.broken != "" {
-			inconclusive(c, "history " + h.Key() + ": " + s.broken)
+			inconclusive(c, "history "+h.Key()+": "+s.broken)
 		}
 		if !clean {
 			s.close() // idempotent
